@@ -18,6 +18,16 @@ def matmul_add(op, input_a, input_b, input_c, **_):
     return op.Add(matmul, input_c)
 
 
+def _check_gemm_to_matmul_add(context, **kwargs) -> bool:
+    # MatMul(a, b) + c only equals Gemm(a, b, c) when neither operand is transposed.
+    for node in context.nodes:
+        if node.op_type == "Gemm" and (
+            node.attributes.get_int("transA", 0) != 0 or node.attributes.get_int("transB", 0) != 0
+        ):
+            return False
+    return check_if_not_need_reshape(context, **kwargs)
+
+
 gemm_to_matmul_add_rule = RewriteRule(
-    reshape_gemm_reshape_pattern, matmul_add, check_if_not_need_reshape
+    reshape_gemm_reshape_pattern, matmul_add, _check_gemm_to_matmul_add
 )
